@@ -38,6 +38,10 @@ func SentinelMiddleware(opts ...Option) echo.MiddlewareFunc {
 			defer entry.Exit()
 
 			err = next(c)
+			if err != nil {
+				// the handler's error passes through this middleware: record it on the entry
+				sentinel.TraceError(entry, err)
+			}
 			return err
 		}
 
